@@ -3,6 +3,7 @@ import Driver.Dominance
 import Driver.Archive
 import Driver.Catchment
 import Driver.Suppa
+import Driver.SuppaToy
 import Driver.Naming
 import Driver.Csv
 import Driver.Params
@@ -25,6 +26,7 @@ def main (args : List String) : IO UInt32 := do
     Driver.runPure (Driver.Naming.step (if e == some "current" then .current else .fixed)); return 0
   | ["naming-fixed"] => Driver.runPure (Driver.Naming.step .fixed); return 0
   | ["naming-current"] => Driver.runPure (Driver.Naming.step .current); return 0
+  | ["suppa-toy"] => Driver.run ({} : Driver.SuppaToy.St) Driver.SuppaToy.step; return 0
   | ["suppa"] => Driver.run ({} : Driver.Suppa.St) Driver.Suppa.step; return 0
   | ["catchment"] => Driver.run ({} : Driver.Catchment.St) Driver.Catchment.step; return 0
   | _ =>
